@@ -7,7 +7,7 @@ META = {
     "driver_id": "Edit",
     "coq_targets": ["Props/C20.vo", "Extract/Extract_Edit.vo"],
     "technique": 'Coq invariant / refinement proofs over the executable edit-machine model + step-by-step differential correspondence of the extracted model with the implementation + direct oracle on the implementation',
-    "level_text": 'Proved in Coq for the model (Props/C20.v, closed under the global context): C20_step - for every state and every API call of EditExec.step, a successful top-level user action (add/delete edge, add/delete node, swap predecessors, update attrs, paint) extends the refresh log by exactly one payload (Some n for add-node n, None or Some new_label for a paint stroke, None otherwise), a refused one (any exception code) leaves the log unchanged, undo/redo append one None iff they return True, queries append nothing; C20_run - over any sequence of calls the log is append-only with at most one entry per call; C20_nested_silent - every user-action core and every user action built with _top_level=False leaves the log unchanged in both outcomes. Supporting theorems in Proofs/EditFrame.v: frame lemmas aux_eq (undo/redo stacks, log, id counter, feature flags untouched) for every non-top-level function of the model, top_wrap_ok, finish_top_spec, one_step_history. Tied to the implementation by step-by-step differential execution and a refresh-counter oracle.',
+    "level_text": 'Proved in Coq for the model (Props/C20.v, closed under the global context): C20_step - for every state and every API call of EditExec.step, a successful top-level user action (add/delete edge, add/delete node, swap predecessors, update attrs, paint) extends the refresh log by exactly one payload (Some n for add-node n, None or Some new_label for a paint stroke, None otherwise), a refused one (any exception code) leaves the log unchanged, undo/redo append one None iff they return True, queries append nothing; C20_run - over any sequence of calls the log is append-only with at most one entry per call; C20_nested_silent - every user-action core and every user action built with _top_level=False leaves the log unchanged in both outcomes. Supporting theorems in Proofs/EditFrame.v: frame lemmas aux_eq (undo/redo stacks, log, id counter, feature flags untouched) for every non-top-level function of the model, top_wrap_ok, finish_top_spec, one_step_history. Tied to the implementation by step-by-step differential execution and a refresh-counter oracle. C20_user_actions_are_generated: the composite user actions (where the refresh is emitted) equal the code translated on every run from user_actions/*.py.',
     "level_note": 'Trusted: Coq kernel, extraction (ExtrOcamlBasic only), OCaml driver drv_Edit.ml, Python harness and oracles. Modelled, not verified: networkx DiGraph dict semantics, numpy indexing, skimage regionprops (symbolic: value = function of key, mask, spacing), psygnal. The theorems are about the hand-written model coq/Model/Edit.v; the tie to /repo is the step-by-step differential execution of the extracted model against the implementation on every run.',
     "design_ref": "DESIGN.md section 9 (C20)",
     "assumptions": ['the caller does not pass a lineage id to UserAddNode (outside its documented domain)', 'track_id and lineage_id features stay enabled during editing sessions', 'labels/ids are positive; times are frame indices within the array'],
@@ -23,6 +23,12 @@ def pre_build(ctx):
     ok, msg = translate_history.regenerate()
     if not ok:
         raise RuntimeError("translator refused action_history.py: %s" % msg)
+    # the composite user actions: re-translate user_actions/*.py (Gen/UserActions_gen.v)
+    import translate_user_actions
+
+    translate_user_actions.regenerate(repo=str(__import__("common").REPO))
+    if not translate_user_actions.LAST.get("ok"):
+        raise RuntimeError("translator refused user_actions/*.py: %s" % translate_user_actions.LAST.get("msg"))
 
 
 def run(ctx):
